@@ -159,7 +159,8 @@ class DiffEqSolver:
         # quadrature
         n = degree//2+1
 
-        self._mVals = np.fft.fftfreq(nTheta, 1/nTheta)
+        # the mode numbers are integers (nTheta*(1/nTheta) is not always 1 in floating point)
+        self._mVals = np.rint(np.fft.fftfreq(nTheta, 1/nTheta))
 
         if rspline.cubic_uniform:
             knots = make_knots(rspline.breaks, 3, False)
